@@ -195,6 +195,9 @@ class Exec:
             return
         if isinstance(st, ast.Pass):
             return
+        if isinstance(st, ast.With):
+            self.run(st.body)          # context managers on the translated paths (torch.no_grad) do not change values
+            return
         if isinstance(st, ast.Raise):
             raise Untranslatable("raise on the translated path", st)
         raise Untranslatable(f"statement {type(st).__name__}", st)
@@ -299,7 +302,7 @@ class Exec:
                 return ("class", e.id)
             if e.id in ("len", "float", "any", "super", "int", "isinstance"):
                 return ("builtin", e.id)
-            if e.id in ("math", "np", "numpy"):
+            if e.id in ("math", "np", "numpy", "torch", "jnp", "jax", "jrandom", "torch_api"):
                 return ModV(e.id)
             raise Untranslatable(f"unknown name {e.id}", e)
         if isinstance(e, ast.Attribute):
@@ -555,7 +558,7 @@ class Exec:
             return self.binop(ast.Div(), self.expr(a[0]), self.expr(a[1]), e)
         if name in ("ones", "zeros"):
             return num(1 if name == "ones" else 0)      # per-row convention (see module docstring)
-        if name in ("asarray", "atleast_1d", "atleast_2d", "array", "copy", "to_device"):
+        if name in ("asarray", "atleast_1d", "atleast_2d", "array", "copy", "to_device", "as_tensor"):
             return self.expr(a[0])
         if name == "where":
             m, y, x = (self.num_of(self.expr(t), e) for t in a[:3])
@@ -869,7 +872,9 @@ class Translator:
     CLASS_HOME = {"BaseSamples": "samples", "Samples": "samples", "SMCSamples": "samples",
                   "BaseTransform": "transforms", "Sampler": "samplers.base", "MCMCSampler": "samplers.mcmc",
                   "SMCSampler": "samplers.smc.base", "NumpySMCSampler": "samplers.smc.base",
-                  "ImportanceSampler": "samplers.importance", "MiniPCN": "samplers.mcmc", "Emcee": "samplers.mcmc"}
+                  "ImportanceSampler": "samplers.importance", "MiniPCN": "samplers.mcmc", "Emcee": "samplers.mcmc",
+                  "Flow": "flows.base", "BaseTorchFlow": "flows.torch.flows", "ZukoFlow": "flows.torch.flows",
+                  "FlowJax": "flows.jax.flows"}
 
     def class_node(self, module, cls):
         c = self.classes(module).get(cls)
